@@ -1,14 +1,17 @@
 CONSTANTS
   Slates = {"s1", "s2"}
-  Kinds = {"send", "late", "selfinv"}
+  Kinds = {"send", "late", "inv", "selfinv"}
   UseCancel = FALSE
   ApiModes = {FALSE, TRUE}
+  UseSecond = TRUE
   TestRng = FALSE
 SPECIFICATION Spec
 INVARIANT TypeOK
 INVARIANT Inv_AtRest
 INVARIANT Inv_Fresh
 INVARIANT Inv_Wire
+INVARIANT Inv_SignsOnce
+INVARIANT Inv_Consumed
 PROPERTY EmitEdges
 VIEW View
 CHECK_DEADLOCK FALSE
